@@ -81,6 +81,7 @@ type Script struct {
 	Post []Step `json:"post,omitempty"` // module.AfterCommandExecute (set/del/ev/uev only)
 	Fail bool   `json:"fail,omitempty"` // command returns an error after its steps
 	Salt int    `json:"salt,omitempty"` // makes transaction IDs distinct
+	VRead bool  `json:"vr,omitempty"`   // module.VerifyTransaction reads the universe and reports it (counted only)
 }
 
 // BlockScript is the block asset of the harness module.
